@@ -94,12 +94,12 @@ theorem lig_attach {i : Input} {al : AList} (w : ALwf i al) {b m : String} {ab a
       have := (mem_plainOf (mem_filter.mp ha').1).1
       rw [e] at this; exact (mem_filter.mp this).1
     exact hnonull as has a' this hn'
-  have hcomp : (⟨ab, "MC" ++ am.name⟩ : BAnchor) ∈ compOf (kmOf i al) (ligEvents (kmOf i al) (plainOf as')) (j + 1) :=
+  have hcomp : (⟨ab, cnOf i al am.name⟩ : BAnchor) ∈ compOf (kmOf i al) (ligEvents (kmOf i al) (plainOf as')) (j + 1) :=
     mem_compOf_of hev hnum hcl hnn
   have hget := ligBM_get hev hnum
   have hatt0 : (b, ligBM (kmOf i al) as') ∈ laOf i al := ligAtts_mem has' hnmg hlig (ne_nil_of_mem hev)
   -- its group
-  have hmem : members (clsOf i al) ("MC" ++ am.name) ≠ [] := by
+  have hmem : members (clsOf i al) (cnOf i al am.name) ≠ [] := by
     rw [members_clsOf w hcls]; exact ne_nil_of_mem (mem_map.mpr ⟨r, hr, rfl⟩)
   obtain ⟨grp, hgrp, hcn⟩ := group_has (i := i) (al := al)
     ((laOf i al).flatMap (fun att => att.2.flatMap (·.map (·.cls)))) (classOf_alookup hcl)
@@ -114,7 +114,7 @@ theorem lig_attach {i : Input} {al : AList} (w : ALwf i al) {b m : String} {ab a
     intro hall
     rw [all_eq_true] at hall
     have hm := hall _ (mem_map.mpr ⟨_, mem_of_getElem? hget, rfl⟩)
-    have : (⟨ab, "MC" ++ am.name⟩ : BAnchor) ∈
+    have : (⟨ab, cnOf i al am.name⟩ : BAnchor) ∈
         (compOf (kmOf i al) (ligEvents (kmOf i al) (plainOf as')) (j + 1)).filter (fun x => grp.contains x.cls) :=
       mem_filter.mpr ⟨hcomp, by simpa using hcn⟩
     rw [isEmpty_iff] at hm
@@ -140,7 +140,7 @@ theorem lig_attach {i : Input} {al : AList} (w : ALwf i al) {b m : String} {ab a
       obtain ⟨e1, e2⟩ := filterLig_some hf'
       exact ⟨att0', hatt0', e1, by rw [e2]⟩
   have hentry : ∀ e ∈ es, e.glyph = b → ∃ comp, e.comps[j]? = some comp ∧
-      ("MC" ++ am.name, otRound ab.x, otRound ab.y) ∈ comp := by
+      (cnOf i al am.name, otRound ab.x, otRound ab.y) ∈ comp := by
     intro e he heg
     obtain ⟨att0', hatt0', e1, e2⟩ := hshape e he
     obtain ⟨as'', has'', e3⟩ := ligAtts_eq hatt0'
@@ -149,7 +149,7 @@ theorem lig_attach {i : Input} {al : AList} (w : ALwf i al) {b m : String} {ab a
     rw [e2, e3, hu]
     simp only [getElem?_map, hget, Option.map_some]
     refine ⟨_, rfl, ?_⟩
-    exact mem_compAST_of (b := ⟨ab, "MC" ++ am.name⟩) (mem_filter.mpr ⟨mem_filter.mpr ⟨hcomp, by simpa using hcn⟩, hmf⟩)
+    exact mem_compAST_of (b := ⟨ab, cnOf i al am.name⟩) (mem_filter.mpr ⟨mem_filter.mpr ⟨hcomp, by simpa using hcn⟩, hmf⟩)
   have hused : ∀ e ∈ es, ∀ comp ∈ e.comps, ∀ t ∈ comp, t.1 ∈ grp := by
     intro e he comp hcomp' t ht
     obtain ⟨att0', _, _, e2⟩ := hshape e he
@@ -168,7 +168,7 @@ theorem lig_attach {i : Input} {al : AList} (w : ALwf i al) {b m : String} {ab a
     intro hall
     rw [all_eq_true] at hall
     have hm := hall _ (mem_map.mpr ⟨_, mem_map.mpr ⟨_, mem_of_getElem? hget, rfl⟩, rfl⟩)
-    have : (⟨ab, "MC" ++ am.name⟩ : BAnchor) ∈
+    have : (⟨ab, cnOf i al am.name⟩ : BAnchor) ∈
         ((compOf (kmOf i al) (ligEvents (kmOf i al) (plainOf as')) (j + 1)).filter (fun x => grp.contains x.cls)).filter (fun x => mf x.a) :=
       mem_filter.mpr ⟨mem_filter.mpr ⟨hcomp, by simpa using hcn⟩, hmf⟩
     rw [isEmpty_iff] at hm
@@ -182,14 +182,14 @@ theorem lig_attach {i : Input} {al : AList} (w : ALwf i al) {b m : String} {ab a
     | nil => simp at he0
     | cons _ _ => simp
   refine ⟨_, hL, attachLookup_isSome rfl ⟨e0, he0, he0g⟩ ?_ ?_⟩
-  · refine ⟨("MC" ++ am.name, recs), hcls, ?_, r, hr, hrg⟩
+  · refine ⟨(cnOf i al am.name, recs), hcls, ?_, r, hr, hrg⟩
     obtain ⟨comp, hc, hx⟩ := hentry e0 he0 he0g
     exact mem_usedClasses.mpr ⟨e0, he0, comp, mem_of_getElem? hc, _, hx, rfl⟩
   · intro e he heg cls hcls' hu hm
     obtain ⟨comp, hc, hx⟩ := hentry e he heg
     obtain ⟨e', he', comp', hcomp', t', ht', htc'⟩ := mem_usedClasses.mp hu
     have hin : cls.1 ∈ grp := by rw [← htc']; exact hused e' he' comp' hcomp' t' ht'
-    have hsame : cls.1 = "MC" ++ am.name :=
+    have hsame : cls.1 = cnOf i al am.name :=
       same_class_in_group w _ hgrp hin hcn (r1 := cls.2) (r2 := recs) hcls' hcls hm ⟨r, hr, hrg⟩
     exact ⟨comp, hc, _, hx, hsame.symm⟩
 
